@@ -235,6 +235,40 @@ def run(rep: common.Report, tier: str, seed: int, replay=None) -> int:
                     break
             rep.count(1)
             rep.nontrivial(("solution", fu, cu))
+    # ---------- many evaluation points (a scan line / image): every point, the last ones included ----------
+    with tempfile.TemporaryDirectory(prefix="pyt_c20m_") as td:
+        sdev = meshes.make_device(rng, holes=0, terminals=2, max_edge_length=1.1)
+        ns = len(sdev.mesh.sites)
+        npts = int(1.37 * (2 ** 22) / ns) + 3 if tier == "quick" else int(3.21 * (2 ** 22) / ns) + 7
+        opts = runs.make_options(td, solve_time=0.05, dt_init=2e-3, dt_max=1e-2, output_file=f"{td}/many.h5")
+        sol = tdgl.solve(sdev, opts, applied_vector_potential=0.3, terminal_currents={"source": 2.0, "drain": -2.0})
+        xs_ = np.linspace(-4.0, 4.0, npts)
+        Pm = np.stack([xs_, 0.3 * np.sin(xs_), 0.9 + 0.1 * np.cos(3 * xs_)], axis=1)
+        to_m = ureg(sdev.length_units).to("m").magnitude
+        xi = sdev.coherence_length.magnitude
+        K = (sol.supercurrent_density + sol.normal_current_density).to("A/m").magnitude
+        pos3 = np.concatenate([sdev.points * to_m, np.full((ns, 1), sdev.layer.z0 * to_m)], axis=1)
+        ar = sdev.mesh.areas * (xi * to_m) ** 2
+        Bgot = np.asarray(sol.field_at_position(Pm, vector=True, units="tesla", with_units=False))
+        Agot = sol.vector_potential_at_position(Pm, units="T * m", return_sum=False, with_units=False)
+        Agot = sum(np.asarray(v) for k_, v in Agot.items() if k_ != "applied")[:, :2]
+        Bref, Aref_ = np.empty((npts, 3)), np.empty((npts, 2))
+        for lo_ in range(0, npts, 4096):
+            blk = Pm[lo_:lo_ + 4096] * to_m
+            Bref[lo_:lo_ + 4096] = direct_bs(blk, pos3, K, ar)
+            rinv_ = 1.0 / np.linalg.norm(blk[:, None, :] - pos3[None], axis=2)
+            Aref_[lo_:lo_ + 4096] = mu_0 / (4 * np.pi) * np.einsum("k,kc,ik->ic", ar, K, rinv_)
+        case = {"evaluation_points": npts, "sites": ns}
+        eB = np.max(np.abs(Bgot - Bref), axis=1) / float(np.max(np.abs(Bref)))
+        eA = np.max(np.abs(Agot - Aref_), axis=1) / float(np.max(np.abs(Aref_)))
+        if eB.max() > 1e-8:
+            rep.violation("field_at_position at many evaluation points differs from the direct Biot-Savart sum",
+                          {**case, "first_bad_point": int(np.argmax(eB > 1e-8)), "max_rel": float(eB.max())})
+        if eA.max() > 1e-8:
+            rep.violation("vector_potential_at_position at many evaluation points differs from the direct Coulomb-kernel sum",
+                          {**case, "first_bad_point": int(np.argmax(eA > 1e-8)), "max_rel": float(eA.max())})
+        rep.count(1)
+        rep.nontrivial(("many-points", npts > 2 ** 22 // ns))
     # ---------- H <-> B conversions round-trip ----------
     for v, u1, u2 in ((1.0, "mT", "A/m"), (3.5, "uT", "mA/um"), (120.0, "A/m", "mT"), (0.2, "uA/um", "uT"), (2.0, "mT", "uT")):
         try:
